@@ -256,6 +256,12 @@ def run(ctx):
         if fxc is None:
             continue
         run_loops(ctx, fxc, "R04.2", {"L9", "L6", "L11", "L4"})
+        # R04.8 (shared with C17) "halt and join resolve only after the stopped callback has finished": a join that was requested
+        # keeps what it waits on — no detach function empties the slot it reads (it would resolve at once, with None, while the
+        # actor still runs), and what it awaits cannot be taken down by giving another join up
+        if cfg != "bare":
+            from props import c17 as _c17
+            core.shared(ctx, "R04.8", _c17.check_join_handle_is_inert, ctx, fxc, cfg, "R04.8")
     check_notifier(ctx, fx, "R04.3")
     check_awaiters(ctx, fx)
     return core.finish(ctx)
@@ -451,6 +457,15 @@ def check_awaiters(ctx, fx):
         viols, ps = nfa.check(n, StopThenAwaitLoose(awaited, delegate=(entry != "addr::Addr::<A>::halt")))
         ctx.count_nfa(n.stats(), ps)
         if viols:
+            # a second view of the same code: private helpers inlined into the body (`self.upgrade_and_stop()?.await`: what the
+            # helper answers is then visible as the entry point's own control flow); a monitor that accepts either view accepts it
+            import inline
+            n2 = nfa.build(inline.body(ctx, fx, fam[0], inline.not_public), A, fx, depth=2)
+            v2, ps2 = nfa.check(n2, StopThenAwaitLoose(awaited, delegate=(entry != "addr::Addr::<A>::halt")))
+            ctx.count_nfa(n2.stats(), ps2)
+            if not v2:
+                viols = []
+        if viols:
             for v in viols:
                 ctx.viol("R04.4", entry, v["msg"], fn=fam[0]["def"], site=fam[0]["loc"], trace=v["trace"])
         else:
@@ -510,7 +525,7 @@ class StopThenAwaitLoose(nfa.Spec):
                 return nfa.Err("R04.4: termination awaited in phase %s (needs the accepted stop request first)" % ph)
             return ("awaited",)
         if ev == "retval:residual":
-            if ph == "s0":
+            if ph in ("s0", "no_actor"):
                 return ("errret",)  # nothing to stop: the weak handle could not be upgraded (`upgrade().ok_or(AlreadyStopped)?`)
             if ph != "stop_failed":
                 return nfa.Err("R04.4: error propagated in phase %s" % ph)
